@@ -47,6 +47,7 @@ func runC20(c *vf.Case) {
 	discardedSinceReset := 0 // bytes discarded through the offsetter since it was last reset
 	nextSeq := 100
 	outOfOrderPops, dups, longestNeverEmpty, run := 0, 0, 0, 0
+	resets := 0
 	capErrs := map[string]int{}
 	rangeErrsInARow := 0
 	var shape strings.Builder
@@ -97,6 +98,22 @@ func runC20(c *vf.Case) {
 				discardedSinceReset = 0 // the sequencer resets its offsetter when it empties
 			}
 			shape.WriteString("D")
+			continue
+		}
+		if len(parked) > 0 && r.Chance(1, 40) {
+			// the owner gives up on what is parked: Reset of the index plus DiscardAll of the save area, in the
+			// middle of a history (slots popped out of order since the last drain); what follows starts from scratch
+			c.Logf("Reset() + DiscardAll() with %d packets (%d bytes) parked, %d bytes discarded since the last drain", len(parked), parkedBytes, discardedSinceReset)
+			if seqr != nil {
+				seqr.Reset()
+			} else {
+				offs.Reset()
+			}
+			b.DiscardAll()
+			parked, parkedBytes, discardedSinceReset = nil, 0, 0
+			resets++
+			shape.WriteString("R")
+			checkTotals("reset")
 			continue
 		}
 		switch {
@@ -266,6 +283,7 @@ func runC20(c *vf.Case) {
 		c.Count("operations", 1)
 	}
 	c.Count("out_of_order_pops", outOfOrderPops)
+	c.Count("resets_with_packets_parked", resets)
 	c.Count("duplicate_pushes", dups)
 	for k, v := range capErrs {
 		c.Count("capacity_errors_"+k, v)
